@@ -525,6 +525,31 @@ def run_index(case, ctx: Ctx):
         ctx.close("d[idx].variance", var, want_cov.diagonal(dim1=-1, dim2=-2).reshape(want_mean.shape), rtol=1e-12, atol=1e-12)
 
 
+def run_index_constructed(case, ctx: Ctx):
+    """Indexing a distribution that came out of from_batch_mvn / from_independent_mvns (structured lazy covariance):
+    the joint distribution is the payload with the cross-task covariances removed."""
+    n, t, batch, M, Cc0 = payload_of(case)
+    via = case["via"]
+    ast, bare = case["idx"], bool(case.get("bare", False))
+    K = Cc0.reshape(*batch, n, t, n, t)
+    task_covs = [K[..., :, a, :, a].contiguous() for a in range(t)]  # (*batch, n, n) each
+    Cc = independent_tasks_cov(task_covs, n, t, batch)
+    idx, want_mean, want_cov, rank, kinds = index_oracle(ast, bare, n, t, batch, M, Cc)
+    ctx.cls = f"{via}|{coarse_index_class(kinds)}"
+    ctx.label("n!=t" if n != t else "n==t", f"via={via}", f"batch={tuple(batch)}", f"idx={','.join(kinds[-2:])}", f"event_rank={rank}")
+    ctx.set_nontrivial(n != t)
+    with ctx.observing(via):
+        if via == "from_batch_mvn":
+            d = MT.from_batch_mvn(_mk_mvn(M.movedim(-1, -2), torch.stack(task_covs, -3), case.get("lazy")), task_dim=-1)
+        else:
+            d = MT.from_independent_mvns([_mk_mvn(M[..., a], task_covs[a], case.get("lazy")) for a in range(t)])
+    is_mt, mean, cov, s = observe_indexed(d, idx, ctx)
+    ctx.close("d[idx].mean = mean[idx]", mean, want_mean, rtol=0, atol=0)
+    ctx.check("result type", is_mt == (rank == 2),
+              f"got {'MultitaskMultivariateNormal' if is_mt else 'MultivariateNormal'} for an index with kinds {kinds}")
+    ctx.close("d[idx].covariance = C[sel, sel]", cov, want_cov, rtol=1e-12, atol=1e-12)
+
+
 # ---- index families ----------------------------------------------------------------------------------
 def slice_len(sl, size):
     return len(range(*slice(*sl).indices(size)))
@@ -723,6 +748,15 @@ def index_cases(draw):
     # re-establish a non-scalar result after dropping positions is automatic (dropped positions are full slices)
     case["idx"] = ast
     case["bare"] = draw(st.booleans()) if len(ast) == 1 else False
+    return case
+
+
+@st.composite
+def index_constructed_cases(draw):
+    case = draw(index_cases())
+    case.pop("inter")
+    via = draw(st.sampled_from(["from_batch_mvn", "from_independent_mvns"] if case["t"] >= 2 else ["from_batch_mvn"]))
+    case["via"] = via
     return case
 
 
@@ -950,12 +984,13 @@ SPEC = PropertySpec(
         Subcheck("mt.rsample_base", run_rsample_base, strategy=rsample_base_cases, quick=1500, thorough=20000, min_shard=100),
         Subcheck("mt.rsample_moments", run_rsample_moments, strategy=rsample_moment_cases, quick=800, thorough=10000, min_shard=50),
         Subcheck("mt.data_independent", run_data_independent, strategy=data_indep_cases, quick=1500, thorough=20000, min_shard=100),
-        Subcheck("mt.layouts_agree", run_layouts_agree, strategy=agree_cases, quick=2000, thorough=30000, min_shard=100),
+        Subcheck("mt.layouts_agree", run_layouts_agree, strategy=agree_cases, quick=1500, thorough=30000, min_shard=100),
         Subcheck("ctor.from_batch_mvn", run_from_batch, strategy=from_batch_cases, quick=1500, thorough=20000, min_shard=100),
         Subcheck("ctor.from_independent_mvns", run_from_independent, strategy=from_independent_cases, quick=1500, thorough=20000,
                  min_shard=100),
         Subcheck("ctor.from_repeated_mvn", run_from_repeated, strategy=from_repeated_cases, quick=1000, thorough=15000, min_shard=100),
-        Subcheck("index.sampled", run_index, strategy=index_cases, quick=6000, thorough=100000, min_shard=200),
+        Subcheck("index.sampled", run_index, strategy=index_cases, quick=4000, thorough=100000, min_shard=200),
+        Subcheck("index.constructed", run_index_constructed, strategy=index_constructed_cases, quick=2000, thorough=30000, min_shard=100),
         Subcheck("index.exhaustive", run_index, enumerate=enumerate_index, exhaustive_note=EXH_NOTE),
     ],
 )
